@@ -212,20 +212,40 @@ example : checkTxFee ⟨[], 0⟩ true true ["/a"] (2 ^ 63) [⟨"FX", 1⟩] [⟨"
 
 /-- **obligation over the regenerated table**: every potentially panicking construct in the fx-core functions reachable
 from `ValidateBasic`/`Validate`/`ParseMethodArgs`/`UnpackInput`/`ParseFxTarget`/address parsers/the ante package has a
-dominating guard, or is on the reviewed list (keyed by function, kind, expression), or — ante package only — runs under
-the deferred `Recover` of `NewAnteHandler`.  A new unguarded site in the source breaks this proof. -/
+dominating guard, or is on the reviewed list (keyed by function, kind, expression), or — ante package only — is guarded or
+reviewed in the typed ante inventory (`ante_sites_ok`).  A new unguarded site in the source breaks this proof. -/
 theorem validation_sites_guarded : sites.all siteOk = true := by decide
 
-/-- unfolded form of the obligation -/
+/-- unfolded form of the obligation: an ante-package site is accepted only through the typed ante inventory (guarded or
+reviewed there) — never because it "runs under the deferred Recover" -/
 theorem site_cases (s : Site) (hs : s ∈ sites) :
     s.guarded = true ∨ (∃ r ∈ reviewedSafe, r.covers s = true) ∨
-      (s.pkg = "ante" ∧ anteRecoversFirst = true ∧ ∃ r ∈ containedByAnteRecover, r.covers s = true) := by
+      (s.pkg = "ante" ∧ ∃ t ∈ FxVerif.Gen.C20Run.anteSites, t.recv = s.recv ∧ t.meth = s.meth ∧ t.expr = s.expr ∧
+        FxVerif.Model.C20Run.anteSiteOk t = true) := by
   have h := List.all_eq_true.1 validation_sites_guarded s hs
-  simp only [siteOk, Bool.or_eq_true, Bool.and_eq_true, List.any_eq_true, beq_iff_eq] at h
+  simp only [siteOk, coveredByTypedAnte, Bool.or_eq_true, Bool.and_eq_true, List.any_eq_true, beq_iff_eq] at h
   rcases h with (h | h) | h
   · exact Or.inl h
   · exact Or.inr (Or.inl h)
-  · exact Or.inr (Or.inr ⟨h.1.1, h.1.2, h.2⟩)
+  · obtain ⟨hp, t, ht, ⟨⟨⟨h1, h2⟩, h3⟩, h4⟩⟩ := h
+    exact Or.inr (Or.inr ⟨hp, t, ht, h1, h2, h3, h4⟩)
+
+/-- **obligation over the typed inventory of the ante package**: every index / slice / division / narrowing / map-write /
+assertion site in every function of `ante/*.go` (decorators, fee checker, signature gas consumer) has a recognised
+dominating guard (`len(pubkeys) != len(signers)` before `signers[i]`, `size != len(pubKeys)` before `pubKeys[i]`, …) or is
+on the reviewed list with the early return it relies on pinned.  No site is accepted for running under `Recover`. -/
+theorem ante_sites_ok : FxVerif.Gen.C20Run.anteSites.all FxVerif.Model.C20Run.anteSiteOk = true := by decide
+
+theorem reviewed_ante_entries_live :
+    FxVerif.Model.C20Run.reviewedAnte.all (fun r => FxVerif.Gen.C20Run.anteSites.any fun s => r.covers s && !s.guarded) = true := by
+  decide
+
+/-- the inventory sees the decorators: it contains the signer index of `PubKeyDecorator` and both index sites of the
+multisignature gas consumer -/
+theorem ante_inventory_has_key_sites :
+    FxVerif.Gen.C20Run.anteSites.any (fun s => s.recv == "PubKeyDecorator" && s.meth == "AnteHandle" && s.expr == "signers[i]") = true ∧
+    (FxVerif.Gen.C20Run.anteSites.filter fun s => s.meth == "ConsumeMultisignatureVerificationGas" && s.kind == "index").length = 2 := by
+  decide
 
 /-- the ante handler returned by `NewAnteHandler` converts every panic of its decorators into an error -/
 theorem ante_handler_recovers : anteRecoversFirst = true := by decide
@@ -239,7 +259,7 @@ theorem precompile_dispatch_length_checked :
 
 /-- no stale review entries: each one still matches a site of the current source -/
 theorem reviewed_entries_live :
-    (reviewedSafe ++ containedByAnteRecover).all (fun r => sites.any fun s => r.covers s && !s.guarded) = true := by decide
+    reviewedSafe.all (fun r => sites.any fun s => r.covers s && !s.guarded) = true := by decide
 
 /-- no explicit `panic(`, `Must*` call or unchecked type assertion is reachable from stateless message validation
 (packages `x/*/types`, `types`, `contract`) -/
